@@ -111,7 +111,7 @@ class BuiltinsMixin(AccessMixin):
         g = args[0]
         if isinstance(g, GenVal):
             if g.pos < len(g.items):
-                g.pos += 1
+                self.gen_advance(g, g.pos + 1, node, frame)
                 return g.items[g.pos - 1]
             if len(args) > 1:
                 return args[1]
